@@ -221,13 +221,13 @@ def oracle_A(ctx, case, variant, key, A, stripes, X):
     return good
 
 
-def oracle_normal_eq(ctx, case, variant, key, A, y, lam, matrix, Cimpl, alpha):
+def oracle_normal_eq(ctx, case, variant, key, A, y, lam, matrix, Cimpl, alpha, step=0):
     """the surpluses satisfy the normal equations formed with the implementation's own matrices"""
     A = np.asarray(A, dtype=float)
     y = np.asarray(y, dtype=float)
     alpha = np.asarray(alpha, dtype=float).flatten()
     m = len(y)
-    tags = {"variant": variant, "matrix": matrix, "lam0": lam == 0}
+    tags = {"variant": variant, "matrix": matrix, "lam0": lam == 0, "training": "first" if step == 0 else "repeated"}
     if alpha.shape[0] != A.shape[1] or not np.all(np.isfinite(alpha)):
         ctx.violation("normal-equations", tags, case, {"grid": str(key), "alpha_shape": list(alpha.shape), "columns": int(A.shape[1])})
         return False
@@ -266,6 +266,14 @@ def gen_data(r, m, dim, den=32, tmin=-1.0):
 
 def gen_lam(r):
     return r.choice([0.0, 0.0, 2.0 ** -1, 2.0 ** -3, 2.0 ** -3, 2.0 ** -6, 2.0 ** -10, 1.0])
+
+
+def gen_lam_other(r, lam):
+    """a value for Regression.regularization_opticom that differs from the regularisation value"""
+    while True:
+        v = r.choice([0.0, 2.0 ** -1, 2.0 ** -2, 2.0 ** -5, 2.0 ** -8, 2.0])
+        if v != lam:
+            return v
 
 
 def gen_lv(r, dim, thorough):
@@ -441,11 +449,11 @@ def cancellation_tol(raw):
     return 1e-9 + amp
 
 
-def opticom_checks(ctx, drv, cmp, case, reg, combi, adaptive):
+def opticom_checks(ctx, drv, cmp, case, reg, combi, adaptive, options=None):
     """every optimisation variant must leave coefficients that sum to one"""
     ok = True
     variant = "spatially_adaptive" if adaptive else "standard"
-    for option in case["options"]:
+    for option in (options if options is not None else case["options"]):
         before = [float(g.coefficient) for g in combi.scheme]
         tags = {"option": option, "variant": variant}
         errs = None
@@ -518,50 +526,81 @@ def opticom_checks(ctx, drv, cmp, case, reg, combi, adaptive):
     return ok
 
 
+def steps_of(case):
+    """training history of ONE Regression object: the first step is the construction + first training, every later
+    step changes public attributes (regularization, regularization_matrix, regularization_opticom) and trains again"""
+    if "steps" in case:
+        return case["steps"]
+    keys = ("lam", "matrix", "pct", "lmin", "lmax", "margin", "tol", "max_evals", "lam_opticom")
+    return [{k: case[k] for k in keys if k in case}]
+
+
+def apply_step(reg, step, first):
+    if not first:
+        reg.regularization = step["lam"]
+        reg.regularization_matrix = step["matrix"]
+    if step.get("lam_opticom") is not None:
+        reg.regularization_opticom = step["lam_opticom"]
+
+
 def run_train(ctx, drv, case):
-    """Regression(...) with default arguments, train(), every component grid of the scheme, then Opticom"""
+    """Regression(...) with default arguments, then a history of train() calls on the SAME object (changed regularisation
+    value / matrix / Opticom parameter / split / level range); after EVERY training each component grid is checked with
+    the current parameters; Opticom after the last (optionally also the first) training"""
     cmp = Cmp(ctx, case)
-    X, y, lam, matrix = case["X"], case["y"], case["lam"], case["matrix"]
+    X, y = case["X"], case["y"]
+    steps = steps_of(case)
     try:
-        reg = make_regression(X, y, lam, matrix)
+        reg = make_regression(X, y, steps[0]["lam"], steps[0]["matrix"])
     except Exception as e:
         ctx.violation("constructor", {"class": "default-arguments", "error": type(e).__name__}, case, {"error": repr(e)[:300]})
         return False
     ok = check_scaling(ctx, drv, cmp, reg, X)
-    try:
-        with quiet():
-            combi = reg.train(case["pct"], case["lmin"], case["lmax"], False)
-    except Exception as e:
-        ctx.violation("train", {"variant": "standard", "error": type(e).__name__}, case, {"error": repr(e)[:300]})
-        return False
-    Xt = [[float(v) for v in row] for row in np.asarray(reg.training_data)]
-    yt = [float(v) for v in np.asarray(reg.training_target_values)]
-    send_data(drv, cmp, Xt, yt)
-    lamS = frac_str(lam)
-    for g in combi.scheme:
-        lv = [int(v) for v in g.levelvector]
-        key = tuple(lv)
-        alpha = reg.surpluses.get(key)
-        if alpha is None:
-            ok = not ctx.violation("surpluses-missing", {"variant": "standard"}, case, {"grid": str(lv)}) and ok
-            continue
-        stripes = [[float(v) for v in nodes_uniform(l)] for l in lv]
-        reg.grid.numPoints = 2 ** np.asarray(lv, dtype=int) - 1
-        with quiet():
-            A = reg.build_A_matrix(lv)
-            C = reg.build_C_matrix(lv) if (matrix == "C" and lam != 0) else None
-        ok = oracle_A(ctx, case, "uniform", lv, A, stripes, Xt) and ok
-        if C is not None:
-            ok = oracle_C(ctx, case, "uniform", lv, C, stripes) and ok
-        ok = oracle_normal_eq(ctx, case, "uniform", lv, A, yt, lam, matrix, C, alpha) and ok
-        out = cmp.model_line(drv, "RESU %s %s %s %s" % (lamS, matrix, vec_str(lv), fr_vec(np.asarray(alpha).flatten())), "residual")
-        if out is not None:
-            res = [float(v) for v in parse_vec(out)]
-            size = 1.0 + (float(np.abs(A).sum()) ** 2 + 64.0 * abs(lam) * A.shape[1] + 1) * max(1.0, float(np.abs(alpha).max()) if A.shape[1] else 1.0)
-            worst = max([abs(v) for v in res] + [0.0])
-            cmp.corr("surpluses-solve-model-system", worst <= TOL_SOLVE * size, {"grid": lv, "residual": worst, "size": size})
-        ctx.count("train_grid_dim%d" % len(lv))
-    ok = opticom_checks(ctx, drv, cmp, case, reg, combi, False) and ok
+    for si, step in enumerate(steps):
+        lam, matrix = step["lam"], step["matrix"]
+        apply_step(reg, step, si == 0)
+        tags_step = {"variant": "standard", "training": "first" if si == 0 else "repeated"}
+        try:
+            with quiet():
+                combi = reg.train(step["pct"], step["lmin"], step["lmax"], False)
+        except Exception as e:
+            ctx.violation("train", dict(tags_step, error=type(e).__name__), case, {"step": si, "error": repr(e)[:300]})
+            return False
+        Xt = [[float(v) for v in row] for row in np.asarray(reg.training_data)]
+        yt = [float(v) for v in np.asarray(reg.training_target_values)]
+        send_data(drv, cmp, Xt, yt)
+        lamS = frac_str(lam)
+        for g in combi.scheme:
+            lv = [int(v) for v in g.levelvector]
+            key = tuple(lv)
+            alpha = reg.surpluses.get(key)
+            if alpha is None:
+                ok = not ctx.violation("surpluses-missing", {"variant": "standard"}, case, {"grid": str(lv), "step": si}) and ok
+                continue
+            stripes = [[float(v) for v in nodes_uniform(l)] for l in lv]
+            reg.grid.numPoints = 2 ** np.asarray(lv, dtype=int) - 1
+            with quiet():
+                A = reg.build_A_matrix(lv)
+                C = reg.build_C_matrix(lv) if (matrix == "C" and lam != 0) else None
+            ok = oracle_A(ctx, case, "uniform", lv, A, stripes, Xt) and ok
+            if C is not None:
+                ok = oracle_C(ctx, case, "uniform", lv, C, stripes) and ok
+            ok = oracle_normal_eq(ctx, case, "uniform", (si, lv), A, yt, lam, matrix, C, alpha, step=si) and ok
+            out = cmp.model_line(drv, "RESU %s %s %s %s" % (lamS, matrix, vec_str(lv), fr_vec(np.asarray(alpha).flatten())), "residual") \
+                if len(np.asarray(alpha).flatten()) == A.shape[1] else None
+            if out is not None:
+                res = [float(v) for v in parse_vec(out)]
+                size = 1.0 + (float(np.abs(A).sum()) ** 2 + 64.0 * abs(lam) * A.shape[1] + 1) * max(1.0, float(np.abs(alpha).max()) if A.shape[1] else 1.0)
+                worst = max([abs(v) for v in res] + [0.0])
+                cmp.corr("surpluses-solve-model-system", worst <= TOL_SOLVE * size, {"step": si, "grid": lv, "residual": worst, "size": size})
+            ctx.count("train_grid_dim%d" % len(lv))
+        ctx.count("train_step_first" if si == 0 else "train_step_repeated")
+        if step.get("lam_opticom") is not None and step["lam_opticom"] != lam:
+            ctx.count("train_opticom_parameter_differs")
+        if si == len(steps) - 1:
+            ok = opticom_checks(ctx, drv, cmp, case, reg, combi, False, case["options"]) and ok
+        elif case.get("opticom_mid"):
+            ok = opticom_checks(ctx, drv, cmp, case, reg, combi, False, case["opticom_mid"]) and ok
     return ok and cmp.ok
 
 
@@ -577,56 +616,68 @@ def recording_class():
 
 
 def run_train_sa(ctx, drv, case):
-    """train_spatially_adaptive: every component grid of every refinement step is observed by subclassing"""
+    """train_spatially_adaptive, possibly several times on the SAME object with changed parameters: every component grid
+    of every refinement step is observed by subclassing and checked with the parameters of its training"""
     cmp = Cmp(ctx, case)
-    X, y, lam, matrix = case["X"], case["y"], case["lam"], case["matrix"]
+    X, y = case["X"], case["y"]
+    steps = steps_of(case)
     try:
-        reg = make_regression(X, y, lam, matrix, recording_class())
+        reg = make_regression(X, y, steps[0]["lam"], steps[0]["matrix"], recording_class())
     except Exception as e:
         ctx.violation("constructor", {"class": "default-arguments", "error": type(e).__name__}, case, {"error": repr(e)[:300]})
         return False
-    reg.rec = []
     ok = True
-    try:
-        with quiet():
-            combi = reg.train_spatially_adaptive(case["pct"], case["margin"], case["tol"], case["max_evals"], False, False)
-    except Exception as e:
-        ctx.violation("train", {"variant": "spatially_adaptive", "error": type(e).__name__}, case, {"error": repr(e)[:300]})
-        return False
-    Xt = [[float(v) for v in row] for row in np.asarray(reg.training_data)]
-    yt = [float(v) for v in np.asarray(reg.training_target_values)]
-    send_data(drv, cmp, Xt, yt)
-    lamS = frac_str(lam)
-    seen = set()
-    budget = case.get("grids", 8)
-    for stripes, lv, alpha in reversed(reg.rec):      # newest first: the most refined, non-uniform grids
-        sig = (tuple(tuple(s) for s in stripes),)
-        n = int(np.prod([len(s) - 2 for s in stripes]))
-        if sig in seen or n > 40 or n == 0:
-            continue
-        seen.add(sig)
-        if len(seen) > budget:
-            break
-        with quiet():
-            A = reg.build_A_matrix_dimension_wise(stripes, None)
-            C = reg.build_C_matrix_dimension_wise(stripes, None) if (matrix == "C" and lam != 0) else None
-        ok = oracle_A(ctx, case, "dimension_wise", stripes, A, stripes, Xt) and ok
-        if C is not None:
-            ok = oracle_C(ctx, case, "dimension_wise", stripes, C, stripes) and ok
-        ok = oracle_normal_eq(ctx, case, "dimension_wise", stripes, A, yt, lam, matrix, C, alpha) and ok
-        ambiguous = near_node(stripes, Xt)
-        if ambiguous:
-            ctx.count("ambiguous_float")
-        out = None if ambiguous else cmp.model_line(drv, "RESNU %s %s %s %s" % (lamS, matrix, fr_rows(stripes), fr_vec(alpha)), "residual")
-        if out is not None:
-            res = [float(v) for v in parse_vec(out)]
-            cs = float(np.abs(C).sum()) if C is not None else 0.0
-            size = 1.0 + (float(np.abs(A).sum()) ** 2 + abs(lam) * cs + abs(lam) * A.shape[1] + 1) * max(1.0, float(np.abs(alpha).max()) if A.shape[1] else 1.0)
-            worst = max([abs(v) for v in res] + [0.0])
-            cmp.corr("surpluses-solve-model-system", worst <= TOL_SOLVE * size, {"grid": str(stripes)[:200], "residual": worst, "size": size})
-        ctx.count("train_sa_grid_dim%d" % len(stripes))
-        ctx.count("train_sa_nonuniform" if any(len(set(round(b - a, 12) for a, b in zip(s, s[1:]))) > 1 for s in stripes) else "train_sa_uniform")
-    ok = opticom_checks(ctx, drv, cmp, case, reg, combi, True) and ok
+    for si, step in enumerate(steps):
+        lam, matrix = step["lam"], step["matrix"]
+        apply_step(reg, step, si == 0)
+        reg.rec = []
+        try:
+            with quiet():
+                combi = reg.train_spatially_adaptive(step["pct"], step["margin"], step["tol"], step["max_evals"], False, False)
+        except Exception as e:
+            ctx.violation("train", {"variant": "spatially_adaptive", "training": "first" if si == 0 else "repeated",
+                                    "error": type(e).__name__}, case, {"step": si, "error": repr(e)[:300]})
+            return False
+        Xt = [[float(v) for v in row] for row in np.asarray(reg.training_data)]
+        yt = [float(v) for v in np.asarray(reg.training_target_values)]
+        send_data(drv, cmp, Xt, yt)
+        lamS = frac_str(lam)
+        seen = set()
+        budget = case.get("grids", 8)
+        for stripes, lv, alpha in reversed(reg.rec):      # newest first: the most refined, non-uniform grids
+            sig = (tuple(tuple(s) for s in stripes),)
+            n = int(np.prod([len(s) - 2 for s in stripes]))
+            if sig in seen or n > 40 or n == 0:
+                continue
+            seen.add(sig)
+            if len(seen) > budget:
+                break
+            with quiet():
+                A = reg.build_A_matrix_dimension_wise(stripes, None)
+                C = reg.build_C_matrix_dimension_wise(stripes, None) if (matrix == "C" and lam != 0) else None
+            ok = oracle_A(ctx, case, "dimension_wise", stripes, A, stripes, Xt) and ok
+            if C is not None:
+                ok = oracle_C(ctx, case, "dimension_wise", stripes, C, stripes) and ok
+            ok = oracle_normal_eq(ctx, case, "dimension_wise", (si, stripes), A, yt, lam, matrix, C, alpha, step=si) and ok
+            ambiguous = near_node(stripes, Xt)
+            if ambiguous:
+                ctx.count("ambiguous_float")
+            out = None if ambiguous else cmp.model_line(drv, "RESNU %s %s %s %s" % (lamS, matrix, fr_rows(stripes), fr_vec(alpha)), "residual")
+            if out is not None:
+                res = [float(v) for v in parse_vec(out)]
+                cs = float(np.abs(C).sum()) if C is not None else 0.0
+                size = 1.0 + (float(np.abs(A).sum()) ** 2 + abs(lam) * cs + abs(lam) * A.shape[1] + 1) * max(1.0, float(np.abs(alpha).max()) if A.shape[1] else 1.0)
+                worst = max([abs(v) for v in res] + [0.0])
+                cmp.corr("surpluses-solve-model-system", worst <= TOL_SOLVE * size, {"step": si, "grid": str(stripes)[:200], "residual": worst, "size": size})
+            ctx.count("train_sa_grid_dim%d" % len(stripes))
+            ctx.count("train_sa_nonuniform" if any(len(set(round(b - a, 12) for a, b in zip(s, s[1:]))) > 1 for s in stripes) else "train_sa_uniform")
+        ctx.count("train_sa_step_first" if si == 0 else "train_sa_step_repeated")
+        if step.get("lam_opticom") is not None and step["lam_opticom"] != lam:
+            ctx.count("train_sa_opticom_parameter_differs")
+        if si == len(steps) - 1:
+            ok = opticom_checks(ctx, drv, cmp, case, reg, combi, True, case["options"]) and ok
+        elif case.get("opticom_mid"):
+            ok = opticom_checks(ctx, drv, cmp, case, reg, combi, True, case["opticom_mid"]) and ok
     return ok and cmp.ok
 
 
@@ -707,17 +758,35 @@ def gen_case(ctx, thorough, k):
         r.shuffle(opts)
         if dim == 3 and lmax > 2:
             opts = [o for o in opts if o != 1]      # Garcke's double loop over the finest common grid is too slow there
-        return {"kind": "train", "X": X, "y": y, "lam": gen_lam(r), "matrix": r.choice(["C", "C", "I"]), "pct": r.choice([0.25, 0.5, 0.1]),
-                "lmin": lmin, "lmax": lmax, "options": opts}
+        def lvl():
+            lo = r.choice([1, 1, 2])
+            hi = lo + r.randint(0, 2) if dim < 3 else lo + r.randint(0, 1)
+            hi = min(hi, 4 if dim == 1 else 3)
+            return min(lo, hi), hi
+        steps = []
+        for si in range(r.choice([1, 1, 2, 3])):
+            lam = gen_lam(r)
+            lo, hi = (lmin, lmax) if (si == 0 or r.random() < 0.6) else lvl()      # mostly the same (overlapping) level range
+            steps.append({"lam": lam, "matrix": r.choice(["C", "C", "I"]), "pct": r.choice([0.25, 0.5, 0.1]), "lmin": lo, "lmax": hi,
+                          "lam_opticom": gen_lam_other(r, lam) if r.random() < 0.4 else None})
+        if dim == 3 and max(st["lmax"] for st in steps) > 2:
+            opts = [o for o in opts if o != 1]
+        return {"kind": "train", "X": X, "y": y, "steps": steps, "options": opts,
+                "opticom_mid": [r.choice([2, 3])] if len(steps) > 1 and r.random() < 0.3 else None}
     if x < 0.88:
         dim = r.choice([1, 1, 2, 2, 3])
         m = r.randint(20, 50)
         X, y = gen_data(r, m, dim)
         opts = [1, 2, 3]
         r.shuffle(opts)
-        return {"kind": "train-sa", "X": X, "y": y, "lam": gen_lam(r), "matrix": r.choice(["C", "C", "I"]), "pct": r.choice([0.25, 0.5]),
-                "margin": r.choice([0.5, 0.75, 0.9]), "tol": 1e-5, "max_evals": r.choice([0, 12, 25, 40] if dim < 3 else [0, 30, 60]),
-                "options": opts, "grids": 6}
+        steps = []
+        for si in range(r.choice([1, 1, 1, 2])):
+            lam = gen_lam(r)
+            steps.append({"lam": lam, "matrix": r.choice(["C", "I", "I"]), "pct": r.choice([0.25, 0.5]), "margin": r.choice([0.5, 0.75, 0.9]), "tol": 1e-5,
+                          "max_evals": r.choice([0, 12, 25, 40] if dim < 3 else [0, 30, 60]),
+                          "lam_opticom": gen_lam_other(r, lam) if r.random() < 0.5 else None})
+        return {"kind": "train-sa", "X": X, "y": y, "steps": steps, "options": opts, "grids": 6,
+                "opticom_mid": [r.choice([2, 3])] if len(steps) > 1 and r.random() < 0.3 else None}
     if x < 0.93:
         n = r.randint(1, 6)
         coefs = [float(r.choice([1, -1, 1, 2, -2])) for _ in range(n)]
@@ -738,6 +807,23 @@ FIXED = [
     {"kind": "train", "X": [[0.3]] * 4, "y": [1.0] * 4, "lam": 0.1, "matrix": "C", "pct": 0.5, "lmin": 1, "lmax": 3, "options": [1, 2, 3]},
     {"kind": "train-sa", "X": [[0.3]] * 4, "y": [1.0] * 4, "lam": 0.1, "matrix": "C", "pct": 0.5, "margin": 0.5, "tol": 1e-5, "max_evals": 0,
      "options": [1, 2, 3], "grids": 6},
+    # histories on ONE Regression object: regularisation sweep / matrix switch / new split with the same level range; Opticom parameter
+    # different from the regularisation value (set before the first training and between trainings)
+    {"kind": "train", "X": [[0.125, 0.5], [0.75, 0.25], [0.5, 0.875], [0.25, 0.125], [0.875, 0.75], [0.375, 0.625], [0.625, 0.375], [0.0, 1.0],
+                            [1.0, 0.0], [0.3125, 0.8125], [0.6875, 0.0625], [0.9375, 0.4375], [0.1875, 0.3125], [0.5625, 0.5625], [0.4375, 0.9375], [0.8125, 0.1875]],
+     "y": [1.0, 2.0, -0.5, 0.25, 1.5, 0.75, -1.0, 0.5, 1.25, 0.0, 2.0, -0.75, 0.375, 1.125, 0.625, -0.25],
+     "steps": [{"lam": 0.125, "matrix": "I", "pct": 0.25, "lmin": 1, "lmax": 3, "lam_opticom": 0.5},
+               {"lam": 0.0078125, "matrix": "I", "pct": 0.25, "lmin": 1, "lmax": 3, "lam_opticom": None},
+               {"lam": 0.0, "matrix": "C", "pct": 0.25, "lmin": 1, "lmax": 3, "lam_opticom": None},
+               {"lam": 0.0625, "matrix": "C", "pct": 0.5, "lmin": 2, "lmax": 3, "lam_opticom": 2.0}],
+     "options": [3, 2], "opticom_mid": [3]},
+    {"kind": "train-sa", "X": [[0.125, 0.5], [0.75, 0.25], [0.5, 0.875], [0.25, 0.125], [0.875, 0.75], [0.375, 0.625], [0.625, 0.375], [0.0, 1.0],
+                               [1.0, 0.0], [0.3125, 0.8125], [0.6875, 0.0625], [0.9375, 0.4375], [0.1875, 0.3125], [0.5625, 0.5625], [0.4375, 0.9375], [0.8125, 0.1875]],
+     "y": [1.0, 2.0, -0.5, 0.25, 1.5, 0.75, -1.0, 0.5, 1.25, 0.0, 2.0, -0.75, 0.375, 1.125, 0.625, -0.25],
+     "steps": [{"lam": 0.125, "matrix": "I", "pct": 0.25, "margin": 0.5, "tol": 1e-5, "max_evals": 20, "lam_opticom": 0.5},
+               {"lam": 0.03125, "matrix": "I", "pct": 0.25, "margin": 0.5, "tol": 1e-5, "max_evals": 20, "lam_opticom": None},
+               {"lam": 0.25, "matrix": "C", "pct": 0.5, "margin": 0.75, "tol": 1e-5, "max_evals": 12, "lam_opticom": 0.0}],
+     "options": [3, 2], "opticom_mid": [3], "grids": 6},
     # the level vector / the grid of the repo's C-matrix tests
     {"kind": "direct-uniform", "X": [[0.25, 0.25], [0.5, 0.75]], "y": [1.0, 2.0], "lam": 0.125, "matrix": "C", "lv": [1, 2]},
     {"kind": "direct-nonuniform", "X": [[0.25], [0.75]], "y": [1.0, 2.0], "lam": 0.125, "matrix": "C", "stripes": [[0.0, 0.25, 0.5, 0.75, 1.0]]},
@@ -773,7 +859,8 @@ def run(ctx):
     ctx.rule = ("fixed cases (the repo's own regression tests, one degenerate case per finding) then random cases: 30% one uniform component grid "
                 "(dim 1-3, levels 1-4, 8-48 dyadic samples, lambda in {0, 2^-k, 1}, matrix C/I: A, C, left/right side, solve), 28% one non-uniform "
                 "dimension-wise grid (random dyadic bisection), 18% Regression(default args).train + all component grids + Opticom 1-3, 12% "
-                "train_spatially_adaptive (every grid observed by subclassing) + Opticom 1-3, 5% option-3 arithmetic, 4% constructor, 3% malformed lines; "
+                "train_spatially_adaptive (every grid observed by subclassing) + Opticom 1-3, both as HISTORIES of 1-3 trainings on one object with changed "
+                "regularization / matrix / regularization_opticom / split / level range, checked after every training, 5% option-3 arithmetic, 4% constructor, 3% malformed lines; "
                 "distinct by full case content; non-trivial if at least 2 samples")
     ctx.assumptions = [
         "numpy.linalg.lstsq returns an exact solution of a solvable system (modelled as: alpha solves the system); checked at 1e-8 relative",
